@@ -290,3 +290,9 @@ Definition check_case (c : case) : bool :=
   let a := override (c_base c) (c_da c) in
   let b := override (c_base c) (c_db c) in
   Bool.eqb (equal a b) (o_ab c) && Bool.eqb (equal b a) (o_ba c).
+
+(* a comparison HISTORY: the same two dataset objects compared several times, with mutations (through
+   any method the containers offer) and cache-filling queries in between.  Each element is the content of
+   both objects as read back at the moment of one comparison, with the two observed answers: the model's
+   answer is a function of that content only. *)
+Definition check_history (h : list case) : bool := forallb check_case h.
